@@ -444,6 +444,11 @@ macro_rules! interp {
                     "extend" => { let r = reg(w[1]); let tags = parse_list(w[2]);
                         let ea: Vec<T> = tags.iter().map(|t| mk(0, *t)).collect(); let eb: Vec<T> = tags.iter().map(|t| mk(1, *t)).collect();
                         (exec(0, || { regs[r].extend(ea); }), exec(1, || { mirs[r].extend(eb); })) }
+                    // `extend` from an iterator that panics when asked for item number k (the items before it were yielded)
+                    "extend_boom" => { let r = reg(w[1]); let tags = parse_list(w[2]); let k = arg(3);
+                        let ea: Vec<T> = tags.iter().map(|t| mk(0, *t)).collect(); let eb: Vec<T> = tags.iter().map(|t| mk(1, *t)).collect();
+                        (exec(0, || { regs[r].extend(ea.into_iter().enumerate().map(move |(i, x)| { if i == k { panic!("the iterator panics") } x })); }),
+                         exec(1, || { mirs[r].extend(eb.into_iter().enumerate().map(move |(i, x)| { if i == k { panic!("the iterator panics") } x })); })) }
                     "collect" => { let r = reg(w[1]); let tags = parse_list(w[2]);
                         let ea: Vec<T> = tags.iter().map(|t| mk(0, *t)).collect(); let eb: Vec<T> = tags.iter().map(|t| mk(1, *t)).collect();
                         (exec(0, || { regs[r] = ea.into_iter().collect(); }), exec(1, || { mirs[r] = eb.into_iter().collect(); })) }
